@@ -10,6 +10,7 @@
 
 #include <yaclib/async/connect.hpp>
 #include <yaclib/async/contract.hpp>
+#include <yaclib/async/make.hpp>
 #include <yaclib/async/wait.hpp>
 
 #include <cstdio>
@@ -60,6 +61,8 @@ enum Cons {
   kConnectAttached,  // the downstream future already has a continuation when Connect is called
   kConnectWaiter,    // a third fiber already blocks in Get on the downstream future when Connect is called
   kOverwriteFuture,  // f = std::move(other): like dropping the Future, nothing may run and the state is released once
+  kUnwrapDetach,     // the Future is returned from a continuation of another chain (flattening subscribes to it while
+  kUnwrapGet,        // the producer fulfils it); the flattened result is consumed by DetachInline / by Get
   kConsN
 };
 const char* const kProdName[] = {"Set(value)", "Set(error)", "Set(exception)", "drop-promise", "promise overwritten by move-assignment",
@@ -67,7 +70,8 @@ const char* const kProdName[] = {"Set(value)", "Set(error)", "Set(exception)", "
 const char* const kConsName[] = {"ThenInline",  "Then(e)", "FutureOn::Detach", "DetachInline", "Detach(e)",
                                  "Get&&",       "Get const& polled", "Wait+Touch",     "Connect",      "drop-future",
                                  "Connect(downstream continuation attached first)",
-                                 "Connect(downstream Get already blocked)", "future overwritten by move-assignment"};
+                                 "Connect(downstream Get already blocked)", "future overwritten by move-assignment",
+                                 "returned from a continuation, then DetachInline", "returned from a continuation, then Get"};
 const char* const kPayName[] = {"int", "move-only", "4-word-checksum"};
 
 template <typename P>
@@ -389,6 +393,30 @@ void Body(Ctx& cx, int ck, int ek) {
       sample_ready(f);
       yaclib::Connect(std::move(f), std::move(p2));
       cx.c_end = ++cx.clock;
+      break;
+    }
+    case kUnwrapDetach:
+    case kUnwrapGet: {
+      sample_ready(f);
+      // the step's functor owns Tracked captures; it must be destroyed exactly once and not be touched after the
+      // step has been published as the inner future's callback (the producer may complete and release it at once)
+      auto outer = yaclib::MakeFuture<void, TErr>().ThenInline([inner = std::move(f), guard]() mutable {
+        guard.Use();
+        return std::move(inner);
+      });
+      if (ck == kUnwrapDetach) {
+        std::move(outer).DetachInline([&cx, guard](R&& r) {
+          guard.Use();
+          ++cx.calls;
+          CheckResult<P>(cx, r);
+        });
+        cx.c_end = ++cx.clock;
+      } else {
+        cx.c_end = ++cx.clock;
+        R r = std::move(outer).Get();
+        ++cx.calls;
+        CheckResult<P>(cx, r);
+      }
       break;
     }
     case kOverwriteFuture: {
